@@ -813,12 +813,34 @@ func c02NameChecks(env *core.Env, tn string, in []fhir.Resource, names []string,
 	case "Date", "DateTime", "Instant", "Time":
 		bad = append(bad, "valueUs", "precision", "timezone")
 	}
+	// an existing element name in another letter case / with another word separator: still not an element
+	must := map[int]bool{}
+	for i := 0; i < fs.Len(); i++ {
+		fd := fs.Get(i)
+		jn := fd.JSONName()
+		if fd.Message() == nil || lexicallyOdd(jn) || len(jn) < 2 || (gen.IsReference(md) && fd.ContainingOneof() != nil) {
+			continue
+		}
+		variants := []string{strings.ToUpper(jn[:1]) + jn[1:], strings.ToUpper(jn)}
+		if strings.Contains(string(fd.Name()), "_") {
+			variants = append(variants, "`"+strings.ReplaceAll(string(fd.Name()), "_", "-")+"`", "`"+strings.ReplaceAll(string(fd.Name()), "_", " ")+"`")
+		}
+		for _, v := range variants {
+			if v != jn && !hasElement(md, strings.Trim(v, "`")) {
+				must[len(bad)] = true
+				bad = append(bad, v)
+			}
+		}
+		if len(must) >= 4 {
+			break
+		}
+	}
 	pick := map[int]bool{}
 	for len(pick) < 4 && len(pick) < len(bad) {
 		pick[rng.Intn(len(bad))] = true
 	}
 	for i, b := range bad {
-		if !pick[i] && i > 1 {
+		if !pick[i] && i > 1 && !must[i] {
 			continue
 		}
 		src := base + "." + b
